@@ -533,7 +533,7 @@ Ev(e, s) ==
          IF a.st # "ok" THEN Fail(s, a.st)
          ELSE LET k == IF a.some THEN a.v ELSE Null
                   has(v) == CASE v.k = "map" -> IF k.k = "str" THEN R(BoolV(HasKey(v, k.s))) ELSE IF k.k = "null" /\ ~a.some THEN RUnspec ELSE IF IsScalar(k) THEN RUnspec ELSE RUnspec
-                              [] v.k = "seq" -> IF k.k = "num" /\ k.int THEN (IF k.n < 0 THEN RUnspec ELSE R(BoolV(k.n < Len(v.e)))) ELSE IF k.k = "num" THEN RUnspec ELSE R(BoolV(FALSE))
+                              [] v.k = "seq" -> IF k.k = "num" /\ k.int THEN (IF k.n < 0 THEN R(BoolV(-k.n <= Len(v.e))) ELSE R(BoolV(k.n < Len(v.e)))) ELSE IF k.k = "num" THEN RUnspec ELSE R(BoolV(FALSE))
                               [] OTHER -> R(BoolV(FALSE))
                   outs == [i \in DOMAIN s.ctx |-> has(ValOf(a.doc, s.ctx[i]))]
               IN IF \E i \in DOMAIN outs : outs[i].t = "unspec" THEN Fail(s, "unspec")
